@@ -616,7 +616,7 @@ pub fn oracles(w: &RegWorld, built: &Built, loader: &RegLoader, report: &mut Rep
       for f in &rv.files {
         for it in &f.items {
           let texts: Vec<&str> = match &it.form {
-            Form::TsTypes(t) => vec![it.text.as_str(), t.as_str()],
+            Form::TsTypes(t) | Form::DenoTypes(t) | Form::DenoTypesBare(t) => vec![it.text.as_str(), t.as_str()],
             _ => vec![it.text.as_str()],
           };
           for t in texts {
